@@ -501,8 +501,11 @@ def ev_seq(case, rec):
             obs = in_child(lambda h=h: run_history(h))
             out.append((h, obs))
         if depth >= 3:
-            for b in NAMES:
-                for c in NAMES:
+            # depth 3 over the core alphabet (one representative per function / configuration); the hash twins, rejected calls
+            # and array / statement variants take part in every history of depth 2 and in [a, b, a]
+            core = [n for n in NAMES if not n.startswith('raises_') and not n.endswith(('_m1', '_m2', '_lm1', '_lm2', '_arr', '_arr_co2', '_p2', '_p3'))]
+            for b in core:
+                for c in core:
                     h = [a, b, c]
                     obs = in_child(lambda h=h: run_history(h))
                     out.append((h, [obs[-1]]))
